@@ -285,6 +285,34 @@ def corrupted_event_guard(chk, wdir, label="r0-32"):
     chk.extra["corrupted_event_guard"] = {"corrupted": len(want), "rejected": len(got), "ops": sorted(picked)}
 
 
+def model_drift(wdir, trace, limit):
+    """Drift only: run the algorithm model at radix 2^7 on the operands of recorded divide events
+    of the BIGINT_DO_DEBUG build and compare digit results and path labels (TraceBigIntImpl.tla)."""
+    path = os.path.join(wdir, "drift7.ndjson")
+    n = 0
+    with open(trace) as fh, open(path, "w") as out:
+        for line in fh:
+            if '"op":"divide"' in line and '"paths"' in line:
+                out.write(line)
+                n += 1
+                if n >= limit:
+                    break
+    if n == 0:
+        return None
+    r = vlib.tlc("TraceBigIntImpl", "TraceBigIntImpl", workers=1, timeout=1500, env={"TRACE": path}, xmx="2g", xss="256m")
+    if r.error:
+        return {"error": r.error[:300]}
+    for p in r.printed:
+        try:
+            d = json.loads(p)
+            if isinstance(d, dict) and "same" in d:
+                d["wall_s"] = round(r.wall, 1)
+                return d
+        except ValueError:
+            pass
+    return {"error": "no result printed"}
+
+
 def confirm_and_report(chk, fails, exes, wdir):
     """Report each failing event; an event that is not a known finding is re-executed alone first
     (a rejection counts only if it repeats)."""
@@ -385,7 +413,8 @@ def run(chk, tier):
     ]
 
     # oracle guard and algorithm model run while the drivers and trace validation are busy
-    pool = concurrent.futures.ThreadPoolExecutor(max_workers=2)
+    pool = concurrent.futures.ThreadPoolExecutor(max_workers=3)
+    fut_drift = None
     fut_oracle = pool.submit(lambda: vlib.tlc("BigZCheck", "BigZCheckQuick" if quick else "BigZCheck",
                                                workers=3 if quick else 6, timeout=2400, xmx="2g"))
     fut_model = pool.submit(run_models, chk, tier, 4 if quick else 6)
@@ -401,6 +430,8 @@ def run(chk, tier):
         all_fails += validate_worklists(chk, wls, exes, wdir, "r%d" % rnd)
         if rnd == 0:
             corrupted_event_guard(chk, wdir)
+            os.rename(os.path.join(wdir, "tr-r0-7.ndjson"), os.path.join(wdir, "keep-r0-7.ndjson"))
+            fut_drift = pool.submit(model_drift, wdir, os.path.join(wdir, "keep-r0-7.ndjson"), 1200 if quick else 12000)
         for rx in (32, 7):
             for f in ("tr-r%d-%d.ndjson" % (rnd, rx), "wl-r%d-%d.txt" % (rnd, rx)):
                 if os.path.exists(os.path.join(wdir, f)):
@@ -415,6 +446,8 @@ def run(chk, tier):
     chk.sample({"path_pattern": pats[0]})
     all_fails += validate_worklists(chk, wls, exes, wdir, "paths")
 
+    if fut_drift is not None:
+        chk.extra.setdefault("drift", {})["model_at_radix7_vs_build_on_recorded_divides"] = fut_drift.result()
     r = fut_oracle.result()
     chk.add_tlc("BigZCheck", r)
     if r.violated:
@@ -450,5 +483,36 @@ def replay(d):
 
 
 SELFTEST_NOTES = """
-(filled in below by the builder after the mutation runs)
+Binding demonstration (2026-10-04; each mutation in a scratch git worktree of /repo, check run as
+`VERIF_SRC=<wt>/aldor/aldor/src bin/verif check C11 --tier quick`; all worktrees removed afterwards).
+The machine was shared (load average 150-240) during these runs, so the wall times are not representative.
+
+ mutation (one line each, all compile)                                              result
+ 1 bigint.c iintDivide D6: `Placev(q)[KtoJq(kj)]--` removed (add-back forgets q)      CAUGHT 12 VIOLATION lines: divide/quo "|r| >= |b|"... at both radices
+ 2 bigint.c PlusStep: carry test `r_ >= BINT_RADIX` -> `r_ > BINT_RADIX`                CAUGHT 20 lines: plus/minus "wrong value", faults and hangs inside minus/gcd (watchdog)
+ 3 bigint.c bintLT negative branch: `Placec(a) > Placec(b)` -> `<`                      CAUGHT 6 lines: cmp "LT wrong" at radix 2^32 and 2^7
+ 4 bigint.c bintShift: `rbitc <= INT_LG_IMMED` -> `INT_LG_IMMED + 1`                    CAUGHT 12 lines: shift "wrong value" at the immediate boundary
+ 5 bigint.c TestGTDouble: `(l1)>(l2)` -> `(l1)>=(l2)` (q-hat correction test)           CAUGHT 20 lines: divide "|r| >= |b|", quo "wrong quotient", gcd does not return
+ 6 bigint.c bintRadixScanFrString chunk loop: letter digit value `+ 10` -> `+ 11`       CAUGHT 6 lines: frstring "wrong value" (radix > 10, second chunk)
+ 7 foam_i.c fiBIntGcd: second operand not negated                                      CAUGHT 6 lines: gcd "wrong gcd" (negative result)
+ 8 bigint.c xintImmedIfCan: `MkImmed(-(IInt)u)` -> `MkImmed((IInt)u)` (sign lost)       CAUGHT 20 lines: minus/plus/times... "wrong value"
+ none missed.  The first attempt at (2) exposed a machinery weakness (a hanging operation cost 180 s per
+ restart and the half-written event broke the event count): fixed with a 20 s per-operation watchdog in the
+ driver, a cap of 25 faults per run and filtering of the half-written line.
+
+Corrupted events: built into every run (corrupted_event_guard): one digit of a product, of a gcd, of a
+remainder, one character of a decimal text and one boolean of a comparison are flipped in recorded events;
+TLC must reject exactly those 5 and accept the 5 intact copies, otherwise the run is a machinery error.
+Observed: {'corrupted': 5, 'rejected': 5}.
+
+Model self-test (spec/BigIntImpl.tla, constant MUT): "times-drop-carry" and "no-addback" violate Check at R=4
+within seconds; "qhat-weak-test" (low half of the q-hat test ignored) does NOT violate it at R=4, DA=4, DB=3 --
+add-back repairs the over-estimate there, the variant is kept as a documented benign mutation.
+Path coverage: run_models raises a machinery error if any of 26 expected path labels is never exported.
+Drift: the model instantiated at radix 2^7 (TraceBigIntImpl.tla) reproduced quotient, remainder and the path
+labels printed by the BIGINT_DO_DEBUG build on 1700 of 1700 recorded divide events.
+
+Candidate patch hooks/fix-c11-bintmod-residue.diff: with it applied (worktree) the quick check reports only
+the bintShiftRem finding; the three BIntMod/BIntPowerMod findings disappear and nothing else changes.
+Unchanged tree: held (exit 0, four KNOWN-FINDING lines) with VERIF_SEED=20261004 and VERIF_SEED=777.
 """
